@@ -38,7 +38,7 @@ CHECKS = {
     technique='symbolic execution of the real Python code with a symbolic fault index (z3 Int) over instrumented stream doubles',
     engine='SX'),
  'C17': dict(
-    level=('model_checking', 'Six parser configurations are built by the real code in separate interpreters on scratch copies (generated modules, in-memory un-optimised, helper first-build, helper re-optimise, and the helper run from a partial stale module set: stale yacctab only / stale lextab only); their LALR tables are compared pairwise by LR-SAT in-equivalence queries over all token strings up to length 5/9 (identical tables give a syntactically unsatisfiable formula, differing ones a SAT search for a distinguishing input); master lexer patterns and rule bindings compared alternative by alternative; SX proves for every spelling that each lexer rule function returns a declared token type (the check ply skips in optimised mode, so a violation is exactly an input on which the modes diverge).', 'DESIGN.md C17'),
+    level=('model_checking', 'Seven parser configurations are built by the real code in separate interpreters on scratch copies (generated modules, in-memory un-optimised, helper first-build, helper re-optimise, first build in an ASCII locale with the helper\'s utf8 patch, and the helper run from a partial stale module set: stale yacctab only / stale lextab only); their LALR tables are compared pairwise by LR-SAT in-equivalence queries over all token strings up to length 5/9 (identical tables give a syntactically unsatisfiable formula, differing ones a SAT search for a distinguishing input); master lexer patterns and rule bindings compared alternative by alternative; SX proves for every spelling that each lexer rule function returns a declared token type (the check ply skips in optimised mode, so a violation is exactly an input on which the modes diverge).', 'DESIGN.md C17'),
     note='Trusted: ply semantics; textual identity of master regexes implies equal lexing. Outside: longer inputs; language-equivalence of textually different master patterns is reported as inconclusive, not decided.',
     technique='bounded SAT in-equivalence of LALR table sets (LR-SAT) + symbolic execution (z3 strings) of the lexer rule functions',
     engine='GX+SX'),
